@@ -61,7 +61,7 @@ Step(r) ==
                   !.stat = [st1 EXCEPT !.faults = @ + 1]]
   ELSE IF r.name = "init" THEN
      [s EXCEPT !.l = @ + 1, !.w = w1, !.img = FbView(w1.ctl), !.viol = @ \o JudgeInit(sc, w0, w1, r), !.stat = st1,
-               !.d = [D0 EXCEPT !.alive = r.res = "ok", !.orient = Orient0(sc)]]
+               !.d = [D0 EXCEPT !.alive = r.res = "ok", !.orient = Orient0(sc), !.faulted = d.faulted]]
   ELSE IF r.name = "test_image" THEN
      \* C19 through a real Display: the decoded framebuffer, mapped back to logical positions, must satisfy the
      \* predicates of the property; nothing outside the panel window may change; the exact picture is DRIFT only
@@ -125,7 +125,10 @@ WithDrift(s1, r) ==
                      !.ndrift = IF same THEN @ ELSE @ + 1,
                      !.drift = IF same \/ Len(@) >= 20 THEN @ ELSE Append(@, [id |-> r.id, i |-> r.i, name |-> r.name])]
 
-Next == s.l <= Len(Rec) /\ s' = WithDrift(Step(Rec[s.l]), Rec[s.l])
+\* "reinit" (Display::release, then Builder::new .. init over the same interface, model and reset-pin objects) is an
+\* initialisation like any other: same obligations, same effect on the monitor's state
+Norm(r) == IF r.k = "call" /\ r.name = "reinit" THEN [r EXCEPT !.name = "init"] ELSE r
+Next == s.l <= Len(Rec) /\ s' = WithDrift(Step(Norm(Rec[s.l])), Norm(Rec[s.l]))
 Spec == Init /\ [][Next]_vars
 
 \* verdicts leave TLC through this (always true) invariant, evaluated in the final state
